@@ -317,14 +317,8 @@ fn check_mapping_empty(
             return Ok(true);
         }
     }
-    if let Some(idx) = &pos.indexed_properties {
-        if idx.key.is_empty(ctx)? {
-            return Ok(true);
-        }
-        if idx.value.is_empty(ctx)? {
-            return Ok(true);
-        }
-    }
+    // an index signature whose key or value type is empty only says that there are no further properties:
+    // the object with the declared properties alone is still a value
 
     // 2. If no negs, not empty (unless pos is empty, checked above)
     // If we have no negative constraints left to subtract, and `pos` is not empty,
